@@ -7,6 +7,7 @@ package rpcserver
 import (
 	"context"
 	"encoding/json"
+	"errors"
 	"net/http"
 	"sort"
 	"strings"
@@ -48,6 +49,7 @@ const (
 	retErr                    // *jsonrpc.Error{Code: codeFail, Data: {"m":name,"args":[...]}}
 	retErrBare                // *jsonrpc.Error{Code: codeBare} without data
 	retErrInt                 // jsonrpc.Err(jsonrpc.InternalError, "boom")
+	retUnser                  // result is a value whose JSON encoding fails (a marshal method of it returns an error)
 )
 
 const (
@@ -79,7 +81,17 @@ var methodTable = []mspec{
 	{name: "failbare", ctx: true, ret: retErrBare},
 	{name: "failint", params: []pspec{{"s", false, tStr}}, ret: retErrInt},
 	{name: "hdr3", params: []pspec{{"a", false, tInt}, {"b", true, tBool}}},
+	// the two methods whose result cannot be serialised come last: the generator draws ordinary
+	// methods from methodTable[:nPlainMethods] and substitutes one of these rarely
+	{name: "unser", ctx: true, ret: retUnser},
+	{name: "unser1", params: []pspec{{"a", false, tInt}}, ret: retUnser},
 }
+
+const nPlainMethods = 15
+
+// unserTag occurs in the name of every method whose result cannot be serialised (and in no other
+// name or literal the generator produces): an input that does not contain it cannot reach them.
+const unserTag = "unser"
 
 func lookupMethod(name string) *mspec {
 	for i := range methodTable {
@@ -111,6 +123,19 @@ type recorder struct {
 	parked []*parkedCall
 	park   bool // scheduling class: handlers park until released
 	broken string
+	unser  int // how often the server tried to encode a result that cannot be serialised
+}
+
+func (r *recorder) noteUnser() {
+	r.mu.Lock()
+	r.unser++
+	r.mu.Unlock()
+}
+
+func (r *recorder) unserCount() int {
+	r.mu.Lock()
+	defer r.mu.Unlock()
+	return r.unser
 }
 
 func (r *recorder) record(ctx context.Context, m string, args ...any) *invocation {
@@ -249,6 +274,26 @@ type resT struct {
 	X int `json:"x"`
 }
 
+// Results that cannot be serialised: encoding/json returns an error for them (it does not panic).
+// The marshal methods run on the server's goroutine; they only count.
+var errUnser = errors.New("jsim: this value cannot be serialised")
+
+// badJSON fails as a whole.
+type badJSON struct{ r *recorder }
+
+func (b badJSON) MarshalJSON() ([]byte, error) {
+	b.r.noteUnser()
+	return nil, errUnser
+}
+
+// badText fails as a member of an otherwise ordinary result, after part of it was encoded.
+type badText struct{ r *recorder }
+
+func (b badText) MarshalText() ([]byte, error) {
+	b.r.noteUnser()
+	return nil, errUnser
+}
+
 func okResult(m string, args ...any) map[string]any {
 	if args == nil {
 		args = []any{}
@@ -335,5 +380,15 @@ func register(s *jsonrpc.Server, r *recorder) error {
 				r.record(nil, "hdr3", a, b)
 				return okResult("hdr3", a, b), http.Header{"X-Jsim": []string{"1"}}, nil
 			}},
+		jsonrpc.Method{Name: "unser", Handler: func(ctx context.Context) (any, *jsonrpc.Error) {
+			if r.record(ctx, "unser").cancelled {
+				return nil, cancelledErr("unser")
+			}
+			return badJSON{r}, nil
+		}},
+		jsonrpc.Method{Name: "unser1", Params: []jsonrpc.Parameter{{Name: "a"}}, Handler: func(a int64) (any, *jsonrpc.Error) {
+			r.record(nil, "unser1", a)
+			return map[string]any{"m": "unser1", "args": []any{a}, "zbad": badText{r}}, nil
+		}},
 	)
 }
